@@ -250,7 +250,8 @@ def check_capture(rep, tier):
                 bad = judge_cap(x["run"], x["res"], obs)
                 if bad:
                     rep.violation("decorated tests %s (initial default logger: %s): %s" % (
-                        [(t["dec"], t["out"], t["logs"]) for t in x["run"]], obs["init"], "; ".join(bad[:3])),
+                        [(t["dec"], t["out"], t["logs"]) + (("body calls swap_logger(foreign) and swaps back only if it passes",) if t.get("swap") else ())
+                         for t in x["run"]], obs["init"], "; ".join(bad[:3])),
                         {"engine": "c14", "module": "checks_c14", "kind": "cap", "run": x["run"], "res": x["res"],
                          "init": obs["init"], "variant": obs["variant"], "observed": obs})
         rep.sample({"cfg": cfg, "run": runs[-1]["run"], "expected": runs[-1]["res"]})
